@@ -5,7 +5,7 @@ use serde_json::{json, Value};
 
 use crate::choices::Choices;
 use crate::gen::types::{RtGen, RtType, TypeGen};
-use crate::props::c16::{assemble_dc, eval_define};
+use crate::props::c16::{assemble_dc_opts, eval_define};
 use crate::runner::{Case, Ctx, Property, Tier, Verdict};
 
 pub struct C17;
@@ -425,7 +425,20 @@ pub fn gen_c19(c: &mut Choices) -> Case {
         };
     }
     let local = !negative && g.c.chance(1, 6);
-    let src = assemble_dc(&mut g, "{ a?: string }", &second, local, "");
+    // user-written options next to the derived emits (other keys must not matter)
+    let options = match g.c.pick(5) {
+        0 => {
+            g.label("user-options-with-props");
+            ", { props: [\"a\"] }"
+        }
+        1 => {
+            g.label("user-options-with-props");
+            ", { \"props\": { a: String }, inheritAttrs: false }"
+        }
+        2 => ", { inheritAttrs: false }",
+        _ => "",
+    };
+    let src = assemble_dc_opts(&mut g, "{ a?: string }", &second, local, "", options);
     let mut case = Case::new(src, "tsx", Some(RT.into()));
     case.labels = g.labels.clone();
     if negative {
@@ -520,6 +533,7 @@ impl Property for C19 {
             "emits-interface", "emits-extends", "emits-property-syntax", "emits-intersection",
             "emits-alias", "literal-union-alias", "declaration-after-use", "negative-no-SetupContext",
             "duplicate-across-signatures",
+            "user-options-with-props",
         ]
     }
 }
